@@ -884,7 +884,38 @@ def into_typed_programs(tier):
                          sattr={"ref": (True, []), "owned": (True, [["own", "conv"]]), "ref_mut": (False, [["own", "tr"]])},
                          fattr=[{"ref": (True, [["tr"]]), "owned": (True, [])}, {"ref_mut": (True, [["tr"]]), "owned": (True, [])}],
                          style="split"))
+    # a field carrying BOTH its own conversion attribute and skip, no struct attribute (doc/into.md "Fields": once a field has its own
+    # `#[into..]`, "no conversion into a tuple of all fields is generated, unless an explicit struct attribute is present"; the skipped
+    # field still gets its own conversions, cf. the last example of that section).  Expected set = the field's own conversions only;
+    # the struct-level tuple of the non-skipped fields must be ABSENT for owned, ref and ref_mut (assert_not_impl_any!).
+    # Both attribute orders (style "rev" puts skip first), tuple and named, 2-3 fields.
+    out.append(prog_into("ifs_named3_distinct_field0_ref_then_skip", "named", field_tys(3, "distinct"), skip=[True, False, False],
+                         fattr=[{"ref": (True, [])}, None, None], style="joined"))
+    out.append(prog_into("ifs_tuple2_distinct_field0_skip_then_into", "tuple", field_tys(2, "distinct"), skip=[True, False],
+                         fattr=[{}, None], style="rev"))
+    out.append(prog_into("ifs_tuple3_same_field1_owned_mut_then_skip", "tuple", field_tys(3, "same"), skip=[False, True, False],
+                         fattr=[None, {"owned": (True, []), "ref_mut": (True, [])}, None], style="split"))
+    out.append(prog_into("ifs_named2_distinct_both_fields_skip_then_conv", "named", field_tys(2, "distinct"), skip=[True, True],
+                         fattr=[{"ref": (True, [])}, {}], style="rev", skipword="ignore"))
+    out.append(prog_into("ifs_named3_distinct_field0_conv_skip_field2_skip", "named", field_tys(3, "distinct"), skip=[True, False, True],
+                         fattr=[{"ref": (True, []), "ref_mut": (True, [])}, None, None], style="joined"))
+    out.append(prog_into("ifs_tuple3_distinct_field2_skip_then_ty", "tuple", S(3), skip=[False, False, True],
+                         fattr=[None, None, {"owned": (False, [["conv"]]), "ref": (False, [["tr"]])}], style="rev"))
     if tier == "thorough":
+        c = 0
+        fkinds = [{}, {"ref": (True, [])}, {"ref_mut": (True, [])}, {"owned": (True, []), "ref": (True, []), "ref_mut": (True, [])}]
+        for n in (2, 3):
+            for sh in ("tuple", "named"):
+                for i in range(n):
+                    for style in ("joined", "rev"):
+                        c += 1
+                        fa = [None] * n
+                        fa[i] = fkinds[c % len(fkinds)]
+                        typing = ("distinct", "same")[(c // 2) % 2]
+                        key = "ifs_%s%d_%s_field%d_%s_%s" % (sh, n, typing, i, "_".join(k.replace("ref_mut", "mut") for k in fa[i]) or "into", style)
+                        if key not in {p.key for p in out}:
+                            out.append(prog_into(key, sh, field_tys(n, typing), skip=[j == i for j in range(n)], fattr=fa, style=style,
+                                                 skipword=("skip", "ignore")[c % 2]))
         out.append(prog_into("it_named1_ty_kinds", "named", S(1), sattr={"owned": (True, [["conv"]]), "ref": (False, [["tr"], ["own"]]),
                                                                          "ref_mut": (True, [["tr"]])}, style="split"))
         out.append(prog_into("it_tuple2_ty_rev", "tuple", S(2), sattr={"owned": (False, [["conv2", "conv"]]), "ref_mut": (False, [["tr", "tr"]])},
